@@ -122,7 +122,10 @@ func (p *StreamPool) Dump() {
 
 func (p *StreamPool) remove(conn *connection) {
 	p.mu.Lock()
-	if _, ok := p.conns[conn.key]; ok {
+	// only the connection that is registered under the key: a flush removes a connection
+	// after releasing its lock, by which time the object may have been closed, removed
+	// and reused for another connection by a concurrent assembler
+	if c, ok := p.conns[conn.key]; ok && c == conn {
 		delete(p.conns, conn.key)
 		p.free = append(p.free, conn)
 	}
